@@ -166,7 +166,7 @@ def n_cases(tier):
 def gen_case(rng, tier, index):
     vclass = rng.choice(["int", "quarter", "quarter", "cent", "dirty"])
     wl = gen.gen_worklist_cfg(rng)
-    wl["max_volume"] = rng.choice([950, 950, 200, 100, 1000])
+    wl["max_volume"] = rng.choice([950, 950, 200, 100, 1000]) if rng.random() > 0.1 else rng.choice([37, 10, 12.5, 2.5])
     wt = gen.gen_worktable(rng, vclass=vclass if vclass != "dirty" else "cent", limits=rng.choice(["tight", "loose", "loose"]),
                            need_trough=rng.random() < 0.6, small=rng.random() < 0.85)
     if rng.random() < 0.12:
